@@ -123,17 +123,24 @@ func OmittableScript(n *chaingen.Node) []byte {
 	for _, e := range FilterEntries(n) {
 		count[string(e)]++
 	}
+	// Prefer a script that does not parse (still committed to by BIP158).
+	var first []byte
 	for _, tx := range n.Block.Transactions[1:] {
 		for _, o := range tx.TxOut {
 			if len(o.PkScript) == 0 || o.PkScript[0] == txscript.OP_RETURN {
 				continue
 			}
 			if count[string(o.PkScript)] == 1 {
-				return o.PkScript
+				if txscript.IsUnspendable(o.PkScript) {
+					return o.PkScript
+				}
+				if first == nil {
+					first = o.PkScript
+				}
 			}
 		}
 	}
-	return nil
+	return first
 }
 
 // prepare builds the falsified filter/hash for block n under lie kind k.
